@@ -60,24 +60,7 @@ Fixpoint find_named (name : str) (bs : list schema) (i : Z) : option Z :=
 
 Definition is_double (s : schema) : bool := match strip s with SDouble => true | _ => false end.
 
-(* hint = datum["-type"] if isinstance(datum, dict) and "-type" in datum else None   (`hint is not None` is the test) *)
-Definition type_hint (v : pyval) : option pyval :=
-  match v with
-  | PDict kv => match dict_get kv (s2b "-type") with Some PNone => None | x => x end
-  | _ => None
-  end.
-
-(* with a hint only the record branch of that name is considered (a by-name reference is resolved first) *)
-Definition hint_pass (e : env) (v : pyval) (c : schema) : bool :=
-  match type_hint v with
-  | None => true
-  | Some h =>
-      match (match strip c with SRef n => match lookup e n with Some d => strip d | None => strip c end | d => d end) with
-      | SRecord n _ _ => match h with PStr t => bytes_eqb t n | _ => false end
-      | _ => false
-      end
-  end.
-
+(* [type_hint], [hint_pass]: model/Validate.v (the validator's union loop applies the same filter) *)
 Section Choose.
   Variable val : schema -> pyval -> res bool.          (* _validate(datum, candidate, field="") *)
   Variable e : env.
